@@ -495,6 +495,12 @@ where
         let volume_info = &data.open_volumes[volume_idx];
         let sfn = name.to_short_filename().map_err(Error::FilenameError)?;
 
+        // "." and ".." always name directories, even where (as in the root
+        // directory) there is no such entry on disk
+        if sfn == ShortFileName::this_dir() || sfn == ShortFileName::parent_dir() {
+            return Err(Error::OpenedDirAsFile);
+        }
+
         let dir_entry = match &volume_info.volume_type {
             VolumeType::Fat(fat) => fat.find_directory_entry(
                 &mut data.block_cache,
@@ -1045,6 +1051,12 @@ where
         let volume_idx = data.get_volume_by_id(volume_id)?;
         let volume_info = &data.open_volumes[volume_idx];
         let sfn = name.to_short_filename().map_err(Error::FilenameError)?;
+
+        // "." and ".." always exist, even where (as in the root directory)
+        // there is no such entry on disk
+        if sfn == ShortFileName::this_dir() || sfn == ShortFileName::parent_dir() {
+            return Err(Error::DirAlreadyExists);
+        }
 
         debug!("Creating directory '{}'", sfn);
         debug!(
